@@ -42,9 +42,10 @@ class DirectiveParser(ABCMeta):
 
     @classmethod
     def parse_tokens(cls, block: "BlockParser", text: str, state: "BlockState") -> Iterable[Dict[str, Any]]:
-        if state.depth() >= block.max_nested_level - 1 and cls.name in block.rules:
-            rules = list(block.rules)
-            rules.remove(cls.name)
+        if state.depth() >= block.max_nested_level - 1:
+            # stop nesting directives of either style, otherwise alternating
+            # styles would nest (and recurse) without bound
+            rules = [r for r in block.rules if r not in ("fenced_directive", "rst_directive")]
         else:
             rules = block.rules
         child = state.child_state(text)
